@@ -8,11 +8,63 @@
 
 #[cfg(not(kani))]
 mod native {
-    use std::cell::RefCell;
+    use std::cell::{Cell, RefCell};
     use std::collections::VecDeque;
 
     thread_local! {
         pub static QUEUE: RefCell<VecDeque<Vec<u8>>> = RefCell::new(VecDeque::new());
+        /// search mode: values come from a xorshift generator and are recorded
+        pub static SEARCH: Cell<u64> = Cell::new(0);
+        pub static DRAWN: RefCell<Vec<Vec<u8>>> = RefCell::new(Vec::new());
+    }
+
+    /// Marker payload of the panic raised by a violated assumption in search mode.
+    pub struct AssumeFailed;
+
+    pub fn start_search(seed: u64) {
+        SEARCH.with(|s| s.set(seed | 1));
+        DRAWN.with(|d| d.borrow_mut().clear());
+    }
+
+    pub fn searching() -> bool {
+        SEARCH.with(|s| s.get() != 0)
+    }
+
+    pub fn drawn() -> Vec<Vec<u8>> {
+        DRAWN.with(|d| d.borrow().clone())
+    }
+
+    fn next_random<const N: usize>() -> [u8; N] {
+        let mut out = [0u8; N];
+        SEARCH.with(|s| {
+            let mut x = s.get();
+            x ^= x << 13;
+            x ^= x >> 7;
+            x ^= x << 17;
+            s.set(x);
+            // small values are much more likely to satisfy range assumptions
+            let v = match (x >> 60) & 3 {
+                0 => x % 8,
+                1 => x % 40,
+                2 => x % 256,
+                _ => x >> 8,
+            };
+            let b = v.to_le_bytes();
+            for i in 0..N.min(8) {
+                out[i] = b[i];
+            }
+        });
+        DRAWN.with(|d| d.borrow_mut().push(out.to_vec()));
+        out
+    }
+
+    /// search mode: replace the value recorded last (range helpers map instead of reject)
+    pub fn remap_last(v: Vec<u8>) {
+        DRAWN.with(|d| {
+            if let Some(last) = d.borrow_mut().last_mut() {
+                *last = v;
+            }
+        });
     }
 
     pub fn load(vals: Vec<Vec<u8>>) {
@@ -24,6 +76,9 @@ mod native {
     }
 
     pub fn pop<const N: usize>() -> [u8; N] {
+        if searching() {
+            return next_random::<N>();
+        }
         let v = QUEUE.with(|q| q.borrow_mut().pop_front());
         match v {
             Some(v) if v.len() == N => {
@@ -44,7 +99,7 @@ mod native {
 }
 
 #[cfg(not(kani))]
-pub use native::{load, remaining};
+pub use native::{drawn, load, remaining, start_search, AssumeFailed};
 
 macro_rules! nd_prim {
     ($name:ident, $t:ty, $n:expr) => {
@@ -116,6 +171,9 @@ pub fn assume(c: bool) {
     kani::assume(c);
     #[cfg(not(kani))]
     if !c {
+        if native::searching() {
+            std::panic::panic_any(native::AssumeFailed);
+        }
         eprintln!("REPLAY-ASSUME-VIOLATED");
         std::process::exit(3);
     }
@@ -137,6 +195,12 @@ macro_rules! witness {
 /// A value in `lo..=hi` (inclusive), as a usize.
 pub fn usize_in(lo: usize, hi: usize) -> usize {
     let x = usize_();
+    #[cfg(not(kani))]
+    if native::searching() {
+        let y = lo + x % (hi - lo + 1);
+        native::remap_last(y.to_le_bytes().to_vec());
+        return y;
+    }
     assume(x >= lo && x <= hi);
     x
 }
@@ -144,6 +208,12 @@ pub fn usize_in(lo: usize, hi: usize) -> usize {
 /// A value in `lo..=hi` (inclusive), as a u8.
 pub fn u8_in(lo: u8, hi: u8) -> u8 {
     let x = u8_();
+    #[cfg(not(kani))]
+    if native::searching() {
+        let y = lo + x % (hi - lo + 1);
+        native::remap_last(vec![y]);
+        return y;
+    }
     assume(x >= lo && x <= hi);
     x
 }
